@@ -322,8 +322,10 @@ Fixpoint rank_in (w : nat) (l : list nat) (v : nat) : nat :=
 Definition diag_rank (h w : nat) (act : nat -> bool) (v : nat) : Z :=
   Z.of_nat (rank_in w (diag_order h w act) v).
 
+(* (the order is computed once; this is cert_diag h w act (diag_rank h w act)) *)
 Definition spec_diag_b (h w : nat) (act : nat -> bool) : bool :=
-  cert_diag h w act (diag_rank h w act).
+  let L := diag_order h w act in
+  cert_diag h w act (fun v => Z.of_nat (rank_in w L v)).
 
 (* ---- the unbounded equivalence that is NOT proved (a discrete planar
    separation theorem): on an independent pattern the diagonal forest
@@ -342,8 +344,9 @@ Definition pat_of (p : list bool) : nat -> bool := fun v => nth v p false.
 
 Definition diag_equiv_on (h w : nat) : bool :=
   forallb (fun p => let act := pat_of p in
-             implb (independent_b (grid_graph h w) act)
-                   (Bool.eqb (spec_diag_b h w act) (connected_b (grid_graph h w) (inactive act))))
+             if independent_b (grid_graph h w) act
+             then Bool.eqb (spec_diag_b h w act) (connected_b (grid_graph h w) (inactive act))
+             else true)
           (all_patterns (h * w)).
 
 (* all shapes (h, w) with 2 <= h, 2 <= w, h * w <= n (single rows / columns do
